@@ -15,11 +15,15 @@ use std::future::pending;
 
 pub struct ConnectStream {
     stream: Option<StreamSession>,
+    read_log: Vec<u8>,
 }
 
 impl ConnectStream {
     pub fn empty() -> Self {
-        Self { stream: None }
+        Self {
+            stream: None,
+            read_log: Vec::new(),
+        }
     }
 
     pub fn is_empty(&self) -> bool {
@@ -37,7 +41,7 @@ impl ConnectStream {
         };
 
         loop {
-            return match stream.read_frame().await {
+            return match stream.read_frame_cancel_safe(&mut self.read_log).await {
                 Ok(frame) => {
                     if !matches!(frame.kind(), FrameKind::Data) {
                         debug!("Skipping non-data frame of kind {:?}", frame.kind());
